@@ -162,10 +162,10 @@ def direction_A(ctx, sts, mode):
     core.parallel(ctx, work, sts)
 
 
-WORDS = ["disk", "win", "C", "drive", "0", "42", "7", "copy", "(2)", "dïsk", "✓", "😀", "s001", "RW", "FLAT", "#", "=", "'", "a.b", "x"]
+WORDS = ["disk", "win", "C", "drive", "0", "42", "7", "copy", "(2)", "dïsk", "✓", "😀", "s001", "RW", "FLAT", "#", "=", "'", "a.b", "x", "d:", "C:data", "..x"]
 SEPS = [" ", " ", '" ', ' "', '"', '" "', "-", " - ", "  ", "_", "\t",
         # characters some line-splitting helpers treat as line boundaries (str.splitlines): VT, FF, FS, GS, RS, NEL, LS, PS
-        "\x0b", "\x0c", "\x1c", "\x1d", "\x1e", "\x85", "\u2028", "\u2029", "\r"]
+        "\x0b", "\x0c", "\x1c", "\x1d", "\x1e", "\x85", "\u2028", "\u2029", "\r", "\\", ":", "\\\\"]
 
 
 def random_name(rng, i):
@@ -182,7 +182,7 @@ def random_name(rng, i):
     return "".join(parts)
 
 
-def make_trace(tid, rng, nops=30):
+def make_trace(tid, rng, nops=30, align=None):
     """B: a random VMDK extent list at real geometry opened through VMDK([handles...]) or through a descriptor file naming
     the extents by randomly generated file names; trace for TraceDisk (extents source)."""
     from dissect.hypervisor.disk.vmdk import VMDK
@@ -190,6 +190,9 @@ def make_trace(tid, rng, nops=30):
     grain = rng.choice([8, 16, 128])
     gbytes = grain * 512
     k = rng.randrange(2, 6)
+    many = rng.random() < 0.12      # several hundred small extents: a descriptor of tens of KiB
+    if many:
+        grain, gbytes, k = 8, 4096, rng.randrange(250, 420)
     vfs, exts, bases = [], [], []
     start = 0
     via = rng.choice(["handles", "descriptor"])
@@ -199,12 +202,14 @@ def make_trace(tid, rng, nops=30):
     for i in range(k):
         kind = rng.choice(["flat", "hosted", "hosted", "se", "cowd"])
         n = rng.randrange(1, 30)
+        if many:
+            kind, n = rng.choice(["flat", "flat", "hosted"]), rng.randrange(1, 3)
         names.append(random_name(rng, i))
         etype = {"flat": rng.choice(["FLAT", "VMFS"]), "hosted": "SPARSE", "se": "SESPARSE", "cowd": "VMFSSPARSE"}[kind]
         lines.append(f'{rng.choice(["RW", "RDONLY", "NOACCESS"])} {n * grain} {etype} "{names[-1]}"{" 0" if etype == "FLAT" else ""}')
         if kind == "flat":
             slack = rng.choice([0, 0, 512, gbytes, 5 * gbytes + 1024]) if via == "descriptor" else 0   # longer than declared
-            vf = VirtualFile(n * gbytes + slack, [(0, n * gbytes + slack, "pat", i)], fid=i)
+            vf = VirtualFile(n * gbytes + slack, [(0, n * gbytes + slack, "pat", i % 150)], fid=i % 150)
             exts.append({"fmt": "flat", "start": start, "n": n, "img": {}})
             bases.append(0)
         else:
@@ -221,11 +226,11 @@ def make_trace(tid, rng, nops=30):
                 if not present[r // gtes]:
                     ents[r] = ("U", 0)
             if kind == "hosted":
-                vf, info = enc_vmdk.build_hosted(ents, present, capacity=n * grain, grain=grain, gtes=gtes, file_id=i, max_pos=n + 3, footer=rng.random() < 0.3)
+                vf, info = enc_vmdk.build_hosted(ents, present, capacity=n * grain, grain=grain, gtes=gtes, file_id=i % 150, max_pos=n + 3, footer=rng.random() < 0.3)
             elif kind == "se":
-                vf, info = enc_vmdk.build_sesparse(ents, present, capacity=n * grain, grain=grain, gt_sectors=1, file_id=i, max_pos=n + 3)
+                vf, info = enc_vmdk.build_sesparse(ents, present, capacity=n * grain, grain=grain, gt_sectors=1, file_id=i % 150, max_pos=n + 3)
             else:
-                vf, info = enc_vmdk.build_cowd(ents, present, capacity=n * grain, grain=grain, file_id=i, max_pos=n + 3)
+                vf, info = enc_vmdk.build_cowd(ents, present, capacity=n * grain, grain=grain, file_id=i % 150, max_pos=n + 3)
             exts.append({"fmt": "vmdk", "start": start, "n": n,
                          "img": {"class": "cowd" if kind == "cowd" else "se" if kind == "se" else "sparse", "gtes": gtes, "cb": 1, "cap": n,
                                  "gd": [bool(x) for x in present], "t": [e[0] for e in ents], "p": [e[1] for e in ents], "parent": with_parent}})
@@ -255,6 +260,8 @@ def make_trace(tid, rng, nops=30):
         return VMDK(list(vfs))
 
     geo = {"cellB": gbytes, "cb": 1, "stride": gbytes, "bases": bases, "pbase": 0}
+    if k > 150:
+        geo["fids"] = [i % 150 for i in range(k)]    # pattern file ids repeat beyond 150 extents
     out = {"tid": tid, "fmt": "extents", "exts": exts, "sizeB": size_b, "sector": 512, "geo": geo, "via": via,
            "lines": lines if via == "descriptor" else []}
     try:
@@ -265,7 +272,7 @@ def make_trace(tid, rng, nops=30):
         except Exception as e:  # noqa: BLE001
             # opening a well-formed extent list must succeed (reported as a violation by diskprop.traces)
             raise RuntimeError(f"VMDK open via {via} raised {e!r}; extent lines: {lines}") from e
-        rec = record.Recorder(s, size_b, probe=fresh.readoffset)
+        rec = record.Recorder(s, size_b, probe=fresh.readoffset, align=align)
         record.random_ops(rec, rng, size_b, nops, unit=gbytes, big=min(20 * gbytes, 1 << 20), sectors_fn=s.read_sectors, ssize=512)
         out["events"] = rec.events
         return out
